@@ -31,12 +31,12 @@ func timingKnobs(thorough bool) []Knobs {
 		{},                     // shipped default (timingconfig.Builder itself)
 		{CUPerSA: 1, NumSA: 1}, // one CU: every work-group on the same CU
 		{CUPerSA: 2, NumSA: 2},
-		{L2Size: 64 << 10}, // 4 KB per L2 bank: evictions and write-backs
-		{MemBanks: 4},      // fewer L2 banks / DRAM channels
-		{CUPerSA: 1, NumSA: 1, L2Size: 16 << 10, MemBanks: 1}, // everything small
+		{CUPerSA: 1, NumSA: 1, L2Size: 16 << 10, MemBanks: 1}, // everything small: evictions, write-backs, one bank
 	}
 	if thorough {
 		k = append(k,
+			Knobs{L2Size: 64 << 10}, // 4 KB per L2 bank
+			Knobs{MemBanks: 4},      // fewer L2 banks / DRAM channels
 			Knobs{Log2Inter: 12},
 			Knobs{MagicCopy: true},
 			Knobs{CUPerSA: 2, NumSA: 2, L2Size: 64 << 10, MemBanks: 4, Log2Inter: 8},
@@ -46,6 +46,13 @@ func timingKnobs(thorough bool) []Knobs {
 	return k
 }
 
+// twoD lists the workloads whose kernels use a multi-dimensional work-group:
+// at the smallest size they run a single work-group, which cannot show a slip
+// in work-group ids, so a second size with several work-groups in both
+// dimensions is added for them already in the quick tier.
+var twoD = map[string]bool{"matrixmultiplication": true, "matrixtranspose": true, "floydwarshall": true,
+	"stencil2d": true, "im2col": true, "conv2d": true}
+
 // C02pCases enumerates emulation references and timing runs: every shipped
 // workload at C01's smallest size(s), one GPU, GPU model fixing the ISA.
 func (m *Matrix) C02pCases(thorough bool) (cases []Case, refs []int) {
@@ -53,8 +60,8 @@ func (m *Matrix) C02pCases(thorough bool) (cases []Case, refs []int) {
 		e := &m.Workloads[i]
 		var sizes []Size
 		for _, s := range e.Sizes {
-			if len(sizes) == 0 || (thorough && s.Quick && len(sizes) < 2 && s.Name != sizes[0].Name) {
-				sizes = append(sizes, s) // smallest legal; thorough adds one quick-class size
+			if len(sizes) == 0 || ((thorough || twoD[e.Name]) && s.Quick && len(sizes) < 2 && s.Name != sizes[0].Name) {
+				sizes = append(sizes, s) // smallest legal; plus one quick-class size (thorough, or 2-D kernels)
 			}
 		}
 		for _, s := range sizes {
@@ -66,7 +73,9 @@ func (m *Matrix) C02pCases(thorough bool) (cases []Case, refs []int) {
 				ref := Case{Workload: e.Name, Params: s.Params, SizeName: s.Name, Arch: a, GPUs: []int{1}, Mode: "emu",
 					WantBuffers: true, WantPCs: true, SkipVerify: true}
 				ri := len(cases)
+				ref.IsRef = true
 				cases = append(cases, ref)
+				ref.IsRef = false
 				refs = append(refs, ri)
 				for _, k := range timingKnobs(thorough) {
 					c := ref
@@ -233,17 +242,22 @@ func RunC02Platform(r *harness.Run) {
 		first C02Pair
 		msg   string
 		names []string
+		knobs []string
+		sizes map[string]bool
 	}
 	groups := map[string]*grp{}
 	add := func(sig string, p C02Pair, msg string) {
 		g := groups[sig]
 		if g == nil {
-			g = &grp{first: p, msg: msg}
+			g = &grp{first: p, msg: msg, sizes: map[string]bool{}}
 			groups[sig] = g
 		}
 		g.names = append(g.names, p.Case.Name())
+		g.knobs = append(g.knobs, p.Case.Knobs.String())
+		g.sizes[p.Case.SizeName] = true
 	}
-	compared, equalN, undecided := 0, 0, 0
+	compared, equalN, undecided, refFailed := 0, 0, 0, 0
+	var undecidedNames []string
 	var insts, wfs int64
 	classes := map[string]bool{}
 	var samples []any
@@ -254,11 +268,21 @@ func RunC02Platform(r *harness.Run) {
 		case "ok":
 		case "", "capped", "infra", "lostwakeup":
 			undecided++
+			undecidedNames = append(undecidedNames, c.Name()+": "+o.Status+" "+o.Symptom)
 			continue
 		default:
 			if c.Mode == "emu" {
 				// the emulation reference itself fails: C01's subject, nothing to compare with
 				undecided++
+				refFailed++
+				undecidedNames = append(undecidedNames, c.Name()+": "+o.Status+" "+o.Symptom)
+				continue
+			}
+			if ro := outs[refs[i]]; ro.Status != "ok" {
+				// the emulation run fails too: nothing to compare with (C01's subject)
+				undecided++
+				refFailed++
+				undecidedNames = append(undecidedNames, c.Name()+": "+o.Status+" "+o.Symptom+" (emulation run: "+ro.Status+")")
 				continue
 			}
 			add(c02Sig(c, "timing-run-failed:"+o.Symptom), pair, fmt.Sprintf("the timing run failed in stage %s (the emulation run of the same program completes):\n%s", o.Stage, o.Detail))
@@ -270,6 +294,10 @@ func RunC02Platform(r *harness.Run) {
 		ro := outs[refs[i]]
 		if ro.Status != "ok" {
 			undecided++
+			if ro.Status == "fail" || ro.Status == "hang" {
+				refFailed++
+			}
+			undecidedNames = append(undecidedNames, c.Name()+": no emulation result ("+ro.Status+")")
 			continue
 		}
 		compared++
@@ -286,6 +314,31 @@ func RunC02Platform(r *harness.Run) {
 			continue
 		}
 		add(c02Sig(c, what), pair, msg)
+	}
+	// A difference that shows for some knob settings only is itself the finding
+	// ("timing parameters may change simulated time only"): name the settings.
+	nKnobs := len(timingKnobs(r.Thorough()))
+	for s, g := range groups {
+		if len(g.knobs) < nKnobs*len(g.sizes) {
+			ks := map[string]bool{}
+			for _, k := range g.knobs {
+				ks[k] = true
+			}
+			var l []string
+			for k := range ks {
+				l = append(l, k)
+			}
+			sort.Strings(l)
+			delete(groups, s)
+			if len(l) == 1 && l[0] == "magic" {
+				// only with the driver's magic memory copy: one root cause (it never
+				// flushes the write-back caches), whatever the workload
+				c := g.first.Case
+				groups[fmt.Sprintf("platform/magic-memory-copy-without-cache-flush/%s/%s/%s", c.GPUType, c.Workload, strings.TrimPrefix(s, c02Sig(c, "")))] = g
+				continue
+			}
+			groups[s+"/only["+strings.Join(l, ",")+"]"] = g
+		}
 	}
 	sigs := make([]string, 0, len(groups))
 	for s := range groups {
@@ -309,6 +362,7 @@ func RunC02Platform(r *harness.Run) {
 	r.Cov["platform_instructions_compared"] = insts
 	r.Cov["platform_differing_signatures"] = len(sigs)
 	r.Cov["platform_undecided"] = undecided
+	r.Cov["platform_undecided_cases"] = undecidedNames
 	r.Cov["platform_knob_alphabet"] = func() []string {
 		var l []string
 		for _, k := range timingKnobs(r.Thorough()) {
@@ -321,7 +375,8 @@ func RunC02Platform(r *harness.Run) {
 	r.Cov["platform_capped"] = st.Capped
 	r.Cov["platform_samples"] = samples
 	r.Cov["platform_wall_s"] = time.Since(t0).Seconds()
-	r.Cov["platform_exhaustive"] = undecided == 0 && len(st.Flaky) == 0 && st.NotStarted == 0
+	r.Cov["platform_emulation_run_fails_too"] = refFailed
+	r.Cov["platform_exhaustive"] = undecided == refFailed && len(st.Flaky) == 0 && st.NotStarted == 0
 	r.Cov["platform_rule"] = "one comparison = one shipped workload at C01's smallest size on one timing platform configuration (GPU model x exported knobs) against the emulation platform, same inputs: every live device buffer (driver buffer list, read back with MemCopyD2H) bit for bit and every wavefront's executed PC sequence (emu CU hook vs timing CU 'inst' tracing tasks), keyed by (launch, work-group id, wavefront)"
 	fmt.Printf("C02 platform lattice: %d runs, %d comparisons, %d identical, %d differing signature(s), %d undecided, %.0fs\n",
 		st.Executed, compared, equalN, len(sigs), undecided, time.Since(t0).Seconds())
